@@ -124,6 +124,7 @@ def main():
             extra.update(pt)
         except (verdict.Inconclusive, Exception) as e:  # noqa: BLE001
             problems.append(f"repo tests under contracts: {e!r}"[:400])
+    if merged is not None:
         for v in extra.pop("violations", []):
             merged["violations"].append(v)
             merged["nviol"] += 1
